@@ -3,24 +3,34 @@
 package rigs
 
 import (
+	"bytes"
 	"context"
 	"crypto/tls"
 	"fmt"
 	"io"
 	"net"
 	"net/http"
+	"os"
+	"path/filepath"
 	"strings"
 	"time"
 
 	"github.com/tmpim/casket"
+	"github.com/tmpim/casket/caskethttp/httpserver"
 
 	"verif/sim"
 )
 
-// ---- C19, fourth surface: Link headers coming from a backend / inner
-// handler, parsed by the push middleware. That code only runs for HTTP/2
-// requests (it needs an http.Pusher), so this rig speaks HTTP/2: a real
-// net/http client transport over TLS over simnet. ----
+// ---- the HTTP/2 rig: a TLS site spoken to by a real net/http HTTP/2 client
+// transport over crypto/tls over simnet.
+//
+// C19: Link headers coming from a backend / inner handler are parsed by the
+// push middleware; that code only runs for HTTP/2 requests (it needs an
+// http.Pusher).
+//
+// C20: over HTTP/2 the ResponseWriter handed to the middleware chain is not
+// the HTTP/1 one (no io.ReaderFrom, no Hijacker): the access log's status
+// and size must still be those of the response the client received. ----
 
 var hostileLinks = []string{
 	"</a.css>; rel=preload; as=style", "</a.css>; rel=preload, </b.js>; as=script; nopush",
@@ -29,139 +39,275 @@ var hostileLinks = []string{
 	"</a>; " + strings.Repeat("k=v;", 500), "\t<\t/a\t>\t", "<//evil.test/x>; rel=preload", "<http://evil.test/x>", "< >", "<\x00>",
 }
 
-func runH2Push(c *sim.Ctl) {
-	st := c.T.Stream("struct")
-	w := NewWorld(c)
-	c.MaxSteps = 400
-	c.InitStrategy()
-	text := "https://h.test:0 {\n\tbind 127.0.0.1\n\tsimnet v0\n\ttls self_signed {\n\t\tno_redirect\n\t}\n\tpush\n\tprobe p\n}\n"
-	n := 1 + st.Draw(3)
-	type h2req struct {
-		links  []string
-		status int
-		err    error
-		done   bool
-	}
-	var reqs []*h2req
-	for i := 0; i < n; i++ {
-		q := &h2req{}
-		for k := 0; k <= st.Draw(3); k++ {
-			q.links = append(q.links, hostileLinks[st.Draw(len(hostileLinks))])
-			c.Fault("hostile-link-header")
+type h2req struct {
+	method string
+	path   string
+	links  []string
+	// C20: what the scripted handler does
+	status int
+	writes []int // sizes of the pieces
+	copied bool  // the body is handed over with io.Copy (ReadFrom where the writer has it)
+	want   []byte
+	// outcome
+	gotStatus int
+	gotBody   []byte
+	err       error
+	done      bool
+}
+
+func runH2Push(c *sim.Ctl) { runH2("C19")(c) }
+
+func runH2(mode string) sim.RigFunc {
+	return func(c *sim.Ctl) {
+		st := c.T.Stream("struct")
+		w := NewWorld(c)
+		c.MaxSteps = 400
+		c.InitStrategy()
+		tmp, err := os.MkdirTemp("", "h2-")
+		if err != nil {
+			panic(err)
 		}
-		reqs = append(reqs, q)
-	}
-	// a last healthy request (liveness after hostile headers)
-	reqs = append(reqs, &h2req{links: []string{"</ok.css>; rel=preload"}})
-	c.Params["requests"] = len(reqs)
-	w.Callback = func(string, string) error { return nil }
-	w.Probe = func(label string, rw http.ResponseWriter, req *http.Request) (int, error) {
-		var i int
-		fmt.Sscanf(req.Header.Get("X-Req"), "%d", &i)
-		if i >= 0 && i < len(reqs) {
-			for _, l := range reqs[i].links {
+		defer os.RemoveAll(tmp)
+		logFile := filepath.Join(tmp, "access.log")
+		files := map[string][]byte{"/static/empty.txt": nil, "/static/small.txt": []byte("0123456789"), "/static/big.bin": bytes.Repeat([]byte("0123456789abcdef"), 6000)}
+		os.MkdirAll(filepath.Join(tmp, "static"), 0755)
+		for p, b := range files {
+			os.WriteFile(filepath.Join(tmp, p), b, 0644)
+		}
+		text := "https://h.test:0 {\n\tbind 127.0.0.1\n\tsimnet v0\n\troot " + tmp + "\n\ttls self_signed {\n\t\tno_redirect\n\t}\n"
+		if mode == "C20" {
+			text += "\tlog / " + logFile + " \"R={>X-Req} {status} {size} {method}\" {\n\t\trotate_disable\n\t}\n"
+			if st.Draw(2) == 0 {
+				text += "\theader / X-Extra yes\n"
+			}
+		}
+		if mode == "C19" || st.Draw(2) == 0 {
+			text += "\tpush\n"
+		}
+		text += "\tprobe p\n}\n"
+		n := 1 + st.Draw(3)
+		var reqs []*h2req
+		for i := 0; i < n; i++ {
+			q := &h2req{method: "GET", path: "/p", status: 200}
+			if mode == "C19" {
+				for k := 0; k <= st.Draw(3); k++ {
+					q.links = append(q.links, hostileLinks[st.Draw(len(hostileLinks))])
+					c.Fault("hostile-link-header")
+				}
+			} else {
+				q.method = []string{"GET", "GET", "GET", "HEAD", "POST"}[st.Draw(5)]
+				if st.Draw(3) == 0 {
+					q.path = []string{"/static/empty.txt", "/static/small.txt", "/static/big.bin", "/static/missing.txt"}[st.Draw(4)]
+					if q.method == "POST" {
+						q.method = "GET"
+					}
+					q.want = files[q.path]
+					if q.path == "/static/missing.txt" {
+						q.status = 404
+					}
+				} else {
+					q.status = []int{200, 200, 201, 404, 500}[st.Draw(5)]
+					q.copied = st.Draw(2) == 0
+					for k := st.Draw(4); k > 0; k-- {
+						q.writes = append(q.writes, []int{1, 100, 5000, 70000}[st.Draw(4)])
+					}
+					for k, sz := range q.writes {
+						q.want = append(q.want, bytes.Repeat([]byte{byte('a' + k)}, sz)...)
+					}
+				}
+			}
+			reqs = append(reqs, q)
+		}
+		// a last healthy request (liveness after hostile headers)
+		reqs = append(reqs, &h2req{method: "GET", path: "/p", status: 200, links: []string{"</ok.css>; rel=preload"}, writes: []int{5}, want: []byte("aaaaa")})
+		c.Params["requests"] = len(reqs)
+		c.Params["site"] = strings.ReplaceAll(strings.ReplaceAll(text, tmp, "<tmp>"), "\n", " ")
+		w.Callback = func(string, string) error { return nil }
+		w.ProbeNext = func(label string, next httpserver.Handler, rw http.ResponseWriter, req *http.Request) (int, error) {
+			var i int
+			fmt.Sscanf(req.Header.Get("X-Req"), "%d", &i)
+			if i < 0 || i >= len(reqs) || strings.HasPrefix(req.URL.Path, "/static/") {
+				return next.ServeHTTP(rw, req)
+			}
+			q := reqs[i]
+			for _, l := range q.links {
 				rw.Header().Add("Link", l) // as a proxied application would
 			}
+			rw.Header().Set("Content-Type", "text/plain")
+			if mode == "C19" {
+				io.WriteString(rw, "h2-ok")
+				return 0, nil
+			}
+			if q.status != 200 || len(q.writes) == 0 {
+				rw.WriteHeader(q.status)
+			}
+			off := 0
+			for _, sz := range q.writes {
+				piece := q.want[off : off+sz]
+				off += sz
+				if q.copied {
+					// only a Reader: io.Copy uses the writer's ReadFrom when there is one
+					io.Copy(rw, struct{ io.Reader }{bytes.NewReader(piece)})
+				} else {
+					rw.Write(piece)
+				}
+			}
+			return 0, nil
 		}
-		rw.Header().Set("Content-Type", "text/plain")
-		io.WriteString(rw, "h2-ok")
-		return 0, nil
-	}
-	started, opDone, cleanup := false, false, false
-	finish := make(chan struct{})
-	port := 0
-	go func() {
-		_, err := casket.Start(w.Input(text))
-		if err != nil {
-			panic(fmt.Sprintf("harness: start failed: %v", err))
-		}
-		for _, s := range w.N.Sockets() {
-			port = s.Port
-		}
-		started = true
-		<-finish
-		cleanup = true
-		w.Cleanup()
-		opDone = true
-	}()
-	_ = cleanup
-	tr := &http.Transport{
-		ForceAttemptHTTP2: true,
-		DialTLSContext: func(ctx context.Context, network, addr string) (net.Conn, error) {
-			end, err := w.N.Dial("127.0.0.1", port, "h2client")
+		started, opDone := false, false
+		finish := make(chan struct{})
+		port := 0
+		go func() {
+			_, err := casket.Start(w.Input(text))
 			if err != nil {
-				return nil, err
+				panic(fmt.Sprintf("harness: start failed: %v\n%s", err, text))
 			}
-			end.Opaque = true
-			end.Peer().Opaque = true // HTTP/2 frames carry HPACK state and TLS record sizes: keep sizes out of the log
-			tc := tls.Client(end, &tls.Config{InsecureSkipVerify: true, ServerName: "h.test", NextProtos: []string{"h2"},
-				Rand: seededRand{c.T.Stream("tlsrand-h2")},
-				Time: func() time.Time { return time.Date(2000, 1, 1, 0, 0, 1, 0, time.UTC) }})
-			if err := tc.HandshakeContext(ctx); err != nil {
-				end.Close()
-				return nil, err
+			for _, s := range w.N.Sockets() {
+				port = s.Port
 			}
-			return tc, nil
-		},
-	}
-	next := 0
-	running := false
-	c.AddSource(func(add func(sim.Event)) {
-		if !started || running || next >= len(reqs) {
-			return
-		}
-		i := next
-		add(sim.Event{Key: fmt.Sprintf("client.request/r%02d", i), Actor: "client", Fire: func() {
-			running = true
-			next++
-			go func() {
-				defer func() { running = false; reqs[i].done = true }()
-				req, _ := http.NewRequest("GET", "https://h.test/p", nil)
-				req.Header.Set("X-Req", fmt.Sprint(i))
-				resp, err := tr.RoundTrip(req)
+			started = true
+			<-finish
+			w.Cleanup()
+			opDone = true
+		}()
+		tr := &http.Transport{
+			ForceAttemptHTTP2: true,
+			DialTLSContext: func(ctx context.Context, network, addr string) (net.Conn, error) {
+				end, err := w.N.Dial("127.0.0.1", port, "h2client")
 				if err != nil {
-					reqs[i].err = err
-					return
+					return nil, err
 				}
-				io.Copy(io.Discard, resp.Body)
-				resp.Body.Close()
-				reqs[i].status = resp.StatusCode
-				if resp.ProtoMajor == 2 {
-					c.Probe("http2-request-answered")
+				end.Opaque = true
+				end.Peer().Opaque = true // HTTP/2 frames carry HPACK state and TLS record sizes: keep sizes out of the log
+				tc := tls.Client(end, &tls.Config{InsecureSkipVerify: true, ServerName: "h.test", NextProtos: []string{"h2"},
+					Rand: seededRand{c.T.Stream("tlsrand-h2")},
+					Time: func() time.Time { return time.Date(2000, 1, 1, 0, 0, 1, 0, time.UTC) }})
+				if err := tc.HandshakeContext(ctx); err != nil {
+					end.Close()
+					return nil, err
 				}
-			}()
-		}})
-	})
-	allDone := func() bool {
-		for _, q := range reqs {
-			if !q.done {
-				return false
+				return tc, nil
+			},
+		}
+		next := 0
+		running := false
+		c.AddSource(func(add func(sim.Event)) {
+			if !started || running || next >= len(reqs) {
+				return
+			}
+			i := next
+			add(sim.Event{Key: fmt.Sprintf("client.request/r%02d", i), Actor: "client", Fire: func() {
+				running = true
+				next++
+				go func() {
+					q := reqs[i]
+					defer func() { running = false; q.done = true }()
+					var body io.Reader
+					if q.method == "POST" {
+						body = strings.NewReader("posted")
+					}
+					req, _ := http.NewRequest(q.method, "https://h.test"+q.path, body)
+					req.Header.Set("X-Req", fmt.Sprint(i))
+					resp, err := tr.RoundTrip(req)
+					if err != nil {
+						q.err = err
+						return
+					}
+					q.gotBody, q.err = io.ReadAll(resp.Body)
+					resp.Body.Close()
+					q.gotStatus = resp.StatusCode
+					if resp.ProtoMajor == 2 {
+						c.Probe("http2-request-answered")
+					}
+				}()
+			}})
+		})
+		allDone := func() bool {
+			for _, q := range reqs {
+				if !q.done {
+					return false
+				}
+			}
+			return started
+		}
+		c.Loop(3, allDone)
+		if !c.Drain(1500, 250*time.Millisecond, allDone) {
+			c.Violate(mode+"/liveness", "http2", "HTTP/2 requests were not all answered within the drain budget (%d issued); parked=%v", next, c.ParkedKeys())
+		}
+		c.Settle(100)
+		for _, l := range w.LogLines() {
+			if strings.Contains(l, "[PANIC") || strings.Contains(l, "panic serving") || strings.Contains(l, "runtime error") {
+				if mode == "C19" {
+					c.Violate("C19/panic", "link-header", "a Link header made request handling panic: %s", trunc([]byte(l), 300))
+				} else {
+					c.Violate("C12/panic", "http2", "request handling panicked: %s", trunc([]byte(l), 300))
+				}
+				break
 			}
 		}
-		return started
-	}
-	c.Loop(3, allDone)
-	if !c.Drain(1500, 250*time.Millisecond, allDone) {
-		c.Violate("C19/liveness", "http2", "HTTP/2 requests with Link headers were not all answered within the drain budget (%d issued); parked=%v", next, c.ParkedKeys())
-	}
-	for _, l := range w.LogLines() {
-		if strings.Contains(l, "[PANIC") || strings.Contains(l, "panic serving") || strings.Contains(l, "runtime error") {
-			c.Violate("C19/panic", "link-header", "a Link header made request handling panic: %s", trunc([]byte(l), 300))
-			break
+		for i, q := range reqs {
+			if mode == "C19" {
+				if q.done && q.err == nil && q.gotStatus != 200 {
+					c.Violate("C19/panic", "link-header/status", "request %d with Link %q was answered %d although its handler wrote 200", i, q.links, q.gotStatus)
+				}
+				if q.done && q.err != nil && i == len(reqs)-1 {
+					c.Violate("C19/liveness", "http2-healthy-request", "the healthy request after hostile Link headers failed: %v", q.err)
+				}
+			}
 		}
-	}
-	for i, q := range reqs {
-		if q.done && q.err == nil && q.status != 200 {
-			c.Violate("C19/panic", "link-header/status", "request %d with Link %q was answered %d although its handler wrote 200", i, q.links, q.status)
+		if mode == "C20" {
+			logBytes, _ := os.ReadFile(logFile)
+			lines := map[string][]string{}
+			for _, l := range strings.Split(strings.TrimSpace(string(logBytes)), "\n") {
+				if l == "" {
+					continue
+				}
+				f := strings.Fields(l)
+				if len(f) != 4 || !strings.HasPrefix(f[0], "R=") {
+					c.Violate("C20/torn-line", "http2", "access log line is not of the configured format: %q", trunc([]byte(l), 200))
+					continue
+				}
+				lines[f[0][2:]] = append(lines[f[0][2:]], l)
+			}
+			for i, q := range reqs {
+				if !q.done || q.err != nil {
+					if q.done {
+						c.Violate("C20/liveness", "http2-request-failed", "request %d (%s %s) failed: %v", i, q.method, q.path, q.err)
+					}
+					continue
+				}
+				got := lines[fmt.Sprint(i)]
+				if len(got) != 1 {
+					c.Violate("C20/line-count", "http2", "request %d (%s %s over HTTP/2, status %d) produced %d access-log lines, want exactly 1", i, q.method, q.path, q.gotStatus, len(got))
+					continue
+				}
+				size := len(q.gotBody)
+				want := fmt.Sprintf("R=%d %d %d %s", i, q.gotStatus, size, q.method)
+				if got[0] != want {
+					how := "written"
+					if q.copied {
+						how = "copied with io.Copy"
+					}
+					if strings.HasPrefix(q.path, "/static/") {
+						how = "a static file"
+					}
+					c.Violate("C20/line-differs", "http2/{status}-{size}", "request %d (%s %s over HTTP/2, body %s in %d pieces): the client received status %d and %d body bytes, the log line is %q, want %q", i, q.method, q.path, how, len(q.writes), q.gotStatus, size, got[0], want)
+				}
+				if q.gotStatus != q.status {
+					c.Violate("C12/status-differs", "http2", "request %d (%s %s): handler status %d, client got %d", i, q.method, q.path, q.status, q.gotStatus)
+				}
+				if q.method != "HEAD" && !bytes.Equal(q.gotBody, q.want) && q.status != 404 {
+					c.Violate("C12/body-altered", "http2", "request %d (%s %s): handler wrote %d bytes, client received %d (first difference at %d)", i, q.method, q.path, len(q.want), len(q.gotBody), firstDiff(q.gotBody, q.want))
+				}
+				c.Probe("log-line-checked")
+				c.Probe("http2-log-line-checked")
+			}
 		}
-		if q.done && q.err != nil && i == len(reqs)-1 {
-			c.Violate("C19/liveness", "http2-healthy-request", "the healthy request after hostile Link headers failed: %v", q.err)
+		tr.CloseIdleConnections()
+		c.Settle(100)
+		close(finish)
+		if !c.Drain(300, time.Second, func() bool { return opDone }) {
+			c.ReleaseAll()
 		}
-	}
-	tr.CloseIdleConnections()
-	c.Settle(100)
-	close(finish)
-	if !c.Drain(300, time.Second, func() bool { return opDone }) {
-		c.ReleaseAll()
 	}
 }
